@@ -367,9 +367,15 @@ def run_dispatch(chk, rng, work, quick):
                   "puts(n0, \" \", len(b), \" \", b[0] == f0, \" \", b[len(b) - 1] == l0, \" \", f0 == byte(%d), \" \", len(($0).payload) == PL); "
                   "let w = ($0).payload; w[0] = 1000; puts(($0).payload[0] != 1000, \" \", len(($%d).payload)); }" % (lay, lay, first, lay))
         jobs.append(("fresh-payload-" + name, [fr], script, ["%d %d true true true true" % (plen, plen), "true %d" % plen]))
-    for name, fr, _, _ in supported:
-        if name not in depth:
-            continue
+    # (frames whose first bytes behind the Ethernet header would also pass for an IPv4 header: VLAN ids from 1280, IPv6 traffic
+    # classes from 0x50, in every combination of low nibble 5..15)
+    extra = []
+    for nib in range(5, 16):
+        extra.append(("eth>vlan(id %d)>ipv4>udp" % (nib * 256 + 7), pkt.eth(m[:6], m[6:], pkt.ET_VLAN, pkt.vlan(3, 1, nib * 256 + 7, pkt.ET_IPV4, pkt.ipv4(b"\x01\x02\x03\x04", b"\x05\x06\x07\x08", 17, bigu))), 4))
+        extra.append(("eth>ipv6(tc %#x)>udp" % (nib * 16 + 8), pkt.eth(m[:6], m[6:], pkt.ET_IPV6, pkt.ipv6(b"\x20\x01" + bytes(14), b"\xfe\x80" + bytes(14), 17, bigu, nib * 16 + 8)), 3))
+        extra.append(("eth>ipv4(tos)>tcp", pkt.eth(m[:6], m[6:], pkt.ET_IPV4, pkt.ipv4(b"\x0a\x00\x00\x01", b"\x0a\x00\x00\x02", 6, bigt, 5, nib * 4, 1)), 3))
+    for name, fr, dp in [(n_, f_, depth[n_]) for n_, f_, _, _ in supported if n_ in depth] + extra:
+        depth[name] = dp
         script = KFN + ("@ true { puts(%s); ($1).ipv4; ($1).ipv6; ($1).vlan; ($1).ipv6; ($1).ipv4; puts(%s); }" % (
             ", ".join("k($%d)" % n for n in range(1, 7)), ", ".join("k($%d)" % n for n in range(1, 7))))
         line = "".join("O" if n <= depth[name] else "N" for n in range(1, 7))
